@@ -80,7 +80,8 @@ var corpus = [][]string{
 		"var a = 1, b = /re/g.test(x) ? a/2 : `t${a}l`;", "function f(a,b=1,...c){ if(a) return b; else for(let i of c) yield i }", "class A extends B { #p = 1; static m(){ super.m() } get x(){return this.#p} }",
 		"async () => { await x; label: while(1){ break label } }", "a = b\n++c; x = {y, [z]: 1, ...w}; try{}catch{}finally{}", "import a, {b as c} from 'm'; export default function(){}", "if (a) b; else c\nswitch(x){case 1: default:}", "x = a ?? b?.c?.[d]; 0x1F + 1_000n - .5e-3", "{\"a\":1}", "[1,\"x\",{\"y\":null}]",
 		"while(a){b}", "do x; while(y)", "for(var i=0;i<1;i++){}", "a=>{ let x = function*(){}; new.target }",
-		"/*! license */\n/*! second */\nvar été = 1; /*! third */\nété++", "/*! bang */ x = 1\n/*! bang2 */ y = 2", "var ǩ = \"é\", 変数 = ǩ + 'ü'; /é+/gimsuy.test(変数)", "x = /[/]\\//u; y = a /é/ g; z = `a${`b${c}`}`", "// line\n/* block\n more */\nlet π = 3.14, \\u0061b = 2\nconsole.log(π)",
+		"/*! license */\n/*! second */\nvar été = 1; /*! third */\nété++", "/*! bang */ x = 1\n/*! bang2 */ y = 2",
+		"/*! a */", "/*! one */ f()", "/*! 1 */ /*! 2 */ /*! 3 */ /*! 4 */ a; b", "x = 1 /*! trailing */", "/*! c1 */\n/*! c2 */\n/*! c3 */\nlet q = {a: 1}", "function g(){ /*! inner */ return 1 }\n/*! outer */", "var ǩ = \"é\", 変数 = ǩ + 'ü'; /é+/gimsuy.test(変数)", "x = /[/]\\//u; y = a /é/ g; z = `a${`b${c}`}`", "// line\n/* block\n more */\nlet π = 3.14, \\u0061b = 2\nconsole.log(π)",
 		"label: for (const [k, v] of Object.entries(o)) { if (!v) continue label; else break }", "x = async function* () { for await (const y of z) yield* y }", "a ||= b; c &&= d; e ??= f; g **= 2; h >>>= 1", "if (a) function f(){}; var let = 1; yield = 2", "({a, b: [c, d = 1], ...e} = f); [g, , h] = i", "new A; new A.b(c); new new D()(); a?.(b)", "export {a as b, c}; export * from 'm'; import * as n from \"n\"", "class C { static #x; static { this.#x = 1 } ['m']() {} async *g() {} }", "a\n/b/g", "return 1", "x = {get a(){return 1}, set a(v){}, async b(){}, *c(){}}", "<!-- html comment\nx-->y", "1..toString(); 08.5; 0b101; 0o17; 1e+400",
 	},
 	5: { // numbers
